@@ -24,6 +24,8 @@
 
 #include <cstddef>
 #include <iosfwd>
+#include <istream>
+#include <limits>
 #include <vector>
 
 namespace hep
@@ -62,6 +64,9 @@ public:
 
         for (std::size_t i = 0; i != size; ++i)
         {
+            // consume the line break written in front of every distribution; the name that follows
+            // may be empty or start with blanks
+            in.ignore(std::numeric_limits<std::streamsize>::max(), '\n');
             distributions_.emplace_back(in);
         }
     }
